@@ -15,7 +15,7 @@ Oracle (property statement + reference/expressions.md "Import Expressions", "Inc
       `fail "FAILMSG[@]" % (<import/include>)` the build must fail and the error text must carry FAILMSG[<reference value>].
   (b) every project file has `let t = TRACE "<tag>";`: a file reached through evaluated positions prints exactly one TRACE line per build
       however often / under however many spellings it is imported (a file reached only through a let constraint: at most one).
-  (c) a project whose import graph has a cycle through evaluated positions ends within 20 s with exit status > 0 (not 134/139/a signal)
+  (c) a project whose import graph has a cycle through evaluated positions ends (within 60 s next to 7 other builds, else within 180 s alone) with exit status > 0 (not 134/139/a signal)
       and a diagnostic that contains "cycle" (any case).
 Positions covered: top-level let (whole tuple and selector), tuple field, list element, select arm, function body, map / filter / reduce
 callback, callback nested in a function / in a module, module body (expression and `let x = import` statement), module out expression,
@@ -30,10 +30,12 @@ import re
 import shutil
 import subprocess
 import tempfile
+import zlib
 
 import realcode as R
 
-TIMEOUT = 20          # seconds per build
+TIMEOUT = 60          # seconds per build while up to WORKERS projects run in parallel (the machine may be heavily loaded)
+TIMEOUT_ALONE = 180   # a build that timed out is repeated once with nothing else of this module running
 WORKERS = 8
 UNRELATED = 'other/u1/u2/u3/u4/u5'     # deep enough that `../../../..` from it stays inside the temp directory
 DECOY_V = 900001
@@ -80,8 +82,9 @@ def known(pr):
 
 # ----------------------------------------------------------------------------------------------- project model
 def F(path, v, edges=()):
-    """a .ucg file: path relative to the project root, own value, edges = [(kind, spelling, position), ...] in statement order"""
-    return dict(path=path, v=v, edges=[dict(kind=k, spell=s, pos=p) for (k, s, p) in edges])
+    """a .ucg file: path relative to the project root, own value, edges = [(kind, spelling, position[, alias]), ...] in statement order;
+    alias True/False: the import reads the binding s_<target path> that only the right file has / the common binding s (default: every third)"""
+    return dict(path=path, v=v, edges=[dict(kind=e[0], spell=e[1], pos=e[2], alias=(e[3] if len(e) > 3 else None)) for e in edges])
 
 
 def project(name, files, data=None, nested=None, cyclic=False, args=None):
@@ -114,6 +117,22 @@ def contribution(pos, s):
             'mapfunc': s, 'modbody': 2 * s + 3, 'modlet': 2 * s + 3, 'modout': 2 * s + 3, 'modmap': s + 1, 'letc': 5}[pos]
 
 
+def ident(path):
+    return re.sub(r'[^a-zA-Z0-9]', '_', path)
+
+
+def tag(path):
+    return 'T_' + ident(path) + '_'
+
+
+# typed probes: a second, top-level use of an imported file in an operation that only type-checks against the right file
+PROBES = ['name', 'cfg', 'chk', 'lst']
+
+
+def probe_expected(kind, path, v):
+    return {'name': 'n_%sx' % ident(path), 'cfg': v + 1, 'chk': v, 'lst': [v, 1]}[kind]
+
+
 def reference(pr):
     """Annotates every edge with its target and the target's value; returns {path: value of binding s or None (never completes)}."""
     byp = {f['path']: f for f in pr['files']}
@@ -126,7 +145,7 @@ def reference(pr):
             return None                                  # the chain came back to a file still being imported
         is_open.add(path)
         f, total, ok = byp[path], byp[path]['v'], True
-        for e in f['edges']:
+        for k, e in enumerate(f['edges']):
             tgt = resolve(path, e['spell'])
             if e['kind'] == 'import':
                 assert tgt in byp, 'generator error: %s imports %s -> %s, not a project file' % (path, e['spell'], tgt)
@@ -135,11 +154,18 @@ def reference(pr):
                 assert tgt in pr['data'], 'generator error: %s includes %s -> %s, not a data file' % (path, e['spell'], tgt)
                 s = pr['data'][tgt]
             e['tgt'], e['s'] = tgt, s
+            e['probe'] = None
+            # every third import names the binding that only the right file has (s_<its path>) instead of the common `s`
+            alias = e.get('alias') if e.get('alias') is not None else k % 3 == 2
+            e['field'] = 's_' + ident(tgt) if e['kind'] == 'import' and alias else 's'
             if s is None or e['pos'] == 'fail':
                 ok = False
             elif ok:
                 e['c'] = contribution(e['pos'], s)
                 total += e['c']
+                if e['kind'] == 'import' and e['pos'] != 'letc':
+                    kind = PROBES[(k + len(path)) % len(PROBES)]
+                    e['probe'] = (kind, probe_expected(kind, tgt, byp[tgt]['v']))
         is_open.discard(path)
         memo[path] = total if ok else None
         return memo[path]
@@ -154,12 +180,13 @@ def render_edge(k, e):
     sp = e['spell']
     s = e['s'] if e['s'] is not None else 1
     if e['kind'] == 'import':
-        x = '(import "%s").s' % sp
+        x = '(import "%s").%s' % (sp, e['field'])
     else:
         x = '(select (include str "%s", 0) => { k%d = %d })' % (sp, s, s)
-    d = dict(k=k, x=x, p=sp, s=s, s1=s + 1)
+    # u: the binding only the right file has; a let-bound import (top, modlet) always reads it as well
+    d = dict(k=k, x=x, p=sp, s=s, s1=s + 1, f=e['field'], u='s_' + ident(e['tgt']))
     t = {
-        'top': 'let i%(k)d = import "%(p)s";\nlet e%(k)d = i%(k)d.s;\n',
+        'top': 'let i%(k)d = import "%(p)s";\nlet e%(k)d = i%(k)d.%(f)s;\nlet a%(k)d = i%(k)d.%(u)s;\n',
         'topsel': 'let e%(k)d = %(x)s;\n',
         'tuple': 'let tp%(k)d = {a = 1, b = %(x)s};\nlet e%(k)d = tp%(k)d.b;\n',
         'list': 'let ls%(k)d = [0, %(x)s];\nlet e%(k)d = ls%(k)d.1;\n',
@@ -170,34 +197,52 @@ def render_edge(k, e):
         'reduce': 'let e%(k)d = reduce(func (acc, q) => acc + %(x)s + q, 0, [1, 2]);\n',
         'mapfunc': 'let g%(k)d = func (q) => map(func (r) => %(x)s + r, [q]);\nlet l%(k)d = g%(k)d(0);\nlet e%(k)d = l%(k)d.0;\n',
         'modbody': 'let m%(k)d = module {a = 0} => (r) { let r = %(x)s + mod.a; };\nlet e%(k)d = m%(k)d{a = 1} + m%(k)d{a = 2};\n',
-        'modlet': 'let m%(k)d = module {a = 0} => (r) { let imp = import "%(p)s"; let r = imp.s + mod.a; };\nlet e%(k)d = m%(k)d{a = 1} + m%(k)d{a = 2};\n',
+        'modlet': 'let m%(k)d = module {a = 0} => (r) { let imp = import "%(p)s"; let own = imp.%(u)s; let r = imp.%(f)s + mod.a; };\nlet e%(k)d = m%(k)d{a = 1} + m%(k)d{a = 2};\n',
         'modout': 'let m%(k)d = module {a = 0} => (%(x)s + mod.a) { let unused = 1; };\nlet e%(k)d = m%(k)d{a = 1} + m%(k)d{a = 2};\n',
         'modmap': 'let m%(k)d = module {a = 0} => (r) { let l = map(func (q) => %(x)s + q, [mod.a]); let r = l.0; };\nlet e%(k)d = m%(k)d{a = 1};\n',
         'letc': 'let e%(k)d :: ((import "%(p)s").shp) = 5;\n',
         'fail': 'let e%(k)d = fail "FAILMSG[@]" %% (%(x)s);\n',
-    }[e['pos']]
-    return t % d
-
-
-def tag(path):
-    return 'T_' + re.sub(r'[^a-zA-Z0-9]', '_', path) + '_'
+    }[e['pos']] % d
+    if e['probe']:
+        t += {'name': 'let w%(k)d = (import "%(p)s").name + "x";\n',
+              'cfg': 'let w%(k)d = (import "%(p)s").cfg.port + 1;\n',
+              'chk': 'let w%(k)d = chk((import "%(p)s").v);\n',
+              'lst': 'let w%(k)d = (import "%(p)s").lst + [1];\n'}[e['probe'][0]] % d
+    return t
 
 
 def render_file(f, main):
-    src = 'let v = %d;\nlet shp = 0;\nlet t = TRACE "%s";\n' % (f['v'], tag(f['path']))
-    names = []
+    i = ident(f['path'])
+    src = ('let v = %d;\nlet shp = 0;\nlet name = "n_%s";\nlet cfg = {port = %d, host = "h_%s"};\nlet lst = [%d];\nlet chk = func (a :: 0) => a + 0;\nlet t = TRACE "%s";\n'
+           % (f['v'], i, f['v'], i, f['v'], tag(f['path'])))
+    names, probes = [], []
     for k, e in enumerate(f['edges']):
         src += render_edge(k, e)
         if e['pos'] != 'fail':
             names.append('e%d' % k)
-    src += 'let s = %s;\n' % ' + '.join(['v'] + names)
+        if e['probe']:
+            probes.append('w%d' % k)
+    src += 'let s = %s;\nlet s_%s = s;\n' % (' + '.join(['v'] + names), i)
     if main:
-        src += 'out json {s = s, v = v, es = [%s]};\n' % ', '.join(names)
+        src += 'out json {s = s, v = v, es = [%s], ws = [%s]};\n' % (', '.join(names), ', '.join(probes))
     return src
 
 
-DECOY_UCG = 'let v = %d;\nlet s = %d;\nlet shp = "DECOY";\nlet t = TRACE "DECOY";\n' % (DECOY_V, DECOY_V)
+# Decoys differ from every project file in TYPE (0: strings for ints, list for tuple, tuple for list; 1: tuples / lists / ints the other way
+# round; 2: the bindings are missing) or only in VALUE (3); none has the s_<path> binding.  Which one lands where depends on the path.
+DECOY_UCG = [
+    'let v = "DECOY";\nlet s = "DECOY";\nlet name = 1;\nlet cfg = [1];\nlet lst = {a = 1};\nlet chk = 1;\nlet shp = "DECOY";\nlet t = TRACE "DECOY";\n',
+    'let v = {d = 1};\nlet s = {d = "DECOY"};\nlet name = ["DECOY"];\nlet cfg = "DECOY";\nlet lst = 1;\nlet chk = "DECOY";\nlet shp = [1];\nlet t = TRACE "DECOY";\n',
+    'let other = %d;\nlet shp = "DECOY";\nlet t = TRACE "DECOY";\n' % DECOY_V,
+    ('let v = %d;\nlet s = %d;\nlet name = "DECOY";\nlet cfg = {port = %d, host = "DECOY"};\nlet lst = [%d];\nlet chk = func (a :: 0) => a + %d;\nlet shp = "DECOY";\nlet t = TRACE "DECOY";\n'
+     % (DECOY_V, DECOY_V, DECOY_V, DECOY_V, DECOY_V)),
+]
 DECOY_TXT = 'kDECOY'
+
+
+def decoy_ucg(pr, relpath):
+    fixed = pr['args'].get('decoy')
+    return DECOY_UCG[fixed if fixed is not None else zlib.crc32(relpath.encode()) % len(DECOY_UCG)]
 
 
 def materialise(pr, tmp):
@@ -217,7 +262,9 @@ def materialise(pr, tmp):
     nested = posixpath.join(root, pr['nested']) if pr['nested'] else root
     os.makedirs(unrelated, exist_ok=True)
     os.makedirs(nested, exist_ok=True)
-    wrong_bases = [root, nested, unrelated, posixpath.join(root, posixpath.dirname(main))]
+    # wrong bases: the three working directories and EVERY directory of the project (the main file's, those of all files on an import chain,
+    # their ancestors)
+    wrong_bases = [root, nested, unrelated] + [posixpath.join(root, d) for d in sorted(project_dirs(list(written))) if d]
     for f in pr['files']:
         here = posixpath.normpath(posixpath.join(root, posixpath.dirname(f['path'])))
         for e in f['edges']:
@@ -231,7 +278,7 @@ def materialise(pr, tmp):
                     continue
                 if p.startswith(root + '/') and p[len(root) + 1:] in written:
                     continue
-                decoys[p[len(tmp) + 1:]] = DECOY_UCG if e['kind'] == 'import' else DECOY_TXT
+                decoys[p[len(tmp) + 1:]] = decoy_ucg(pr, p[len(tmp) + 1:]) if e['kind'] == 'import' else DECOY_TXT
     for p, txt in decoys.items():
         os.makedirs(posixpath.dirname(posixpath.join(tmp, p)), exist_ok=True)
         with open(posixpath.join(tmp, p), 'w') as fh:
@@ -270,8 +317,10 @@ def must_evaluate(pr):
     return seen
 
 
-def run_project(pr):
-    """Builds one project from the three working directories; returns None or a violation description (dict)."""
+def run_project(pr, timeout=None, alone=False):
+    """Builds one project from the three working directories; returns None, a violation description (dict with `detail`),
+    {'retry': True} (a build timed out while other projects were running: to be repeated alone) or {'error': ...} (harness problem)."""
+    timeout = timeout or TIMEOUT
     memo = reference(pr)
     kind = classify(pr, memo)
     main = pr['files'][0]
@@ -285,9 +334,11 @@ def run_project(pr):
             if os.path.exists(art):
                 os.remove(art)
             try:
-                rc, so, se = R.run_ucg(['build', arg], cwd, timeout=TIMEOUT)
+                rc, so, se = R.run_ucg(['build', arg], cwd, timeout=timeout)
             except subprocess.TimeoutExpired:
-                rc, so, se = 'timeout', '', 'no result within %d s' % TIMEOUT
+                if not alone:
+                    return dict(retry=True)
+                rc, so, se = 'timeout', '', 'no result within %d s (run alone)' % timeout
             data = open(art).read() if os.path.exists(art) else None
             obs.append(dict(label=label, cwd=cwd, arg=arg, rc=rc, out=so + se, stderr=se, art=data))
         if os.path.exists(art):
@@ -300,10 +351,10 @@ def run_project(pr):
                         how='files below <tmp>/proj/, decoys below <tmp>/, cwd=%s, command `ucg build %s` (<tmp> was %s)' % (o['cwd'].replace(tmp, '<tmp>'), o['arg'].replace(tmp, '<tmp>'), tmp))
 
         if kind == 'cycle':
-            exp = 'exit status > 0 within %d s, a diagnostic that mentions an import cycle, no crash' % TIMEOUT
+            exp = 'exit status > 0, a diagnostic that mentions an import cycle, no crash, no endless recursion'
             for o in obs:
                 if o['rc'] == 'timeout':
-                    return bad(o, exp, 'no result within %d s' % TIMEOUT)
+                    return bad(o, exp, 'no result within %d s, also when run alone' % timeout)
                 if o['rc'] in (134, 139) or o['rc'] < 0:
                     return bad(o, exp, 'the process crashed (status %s) instead of reporting the cycle' % o['rc'])
                 if o['rc'] == 0:
@@ -314,12 +365,12 @@ def run_project(pr):
                     return bad(o, exp, 'a DECOY file was read')
             return None
         for o in obs:
-            if o['rc'] == 'timeout':
-                return bad(o, 'a result', 'no result within %d s' % TIMEOUT)
+            if o['rc'] == 'timeout':        # the statement gives no time bound for an acyclic build: a harness problem, not a violation
+                return dict(error='%s: `ucg build %s` from the %s gave no result within %d s although it ran alone' % (pr['name'], o['arg'], o['label'], timeout))
             if 'DECOY' in o['out'] or 'DECOY' in (o['art'] or '') or str(DECOY_V) in (o['art'] or ''):
                 return bad(o, 'only files relative to the importing file are read', 'a DECOY file (resolved against another directory) was read')
         if kind == 'value':
-            exp = dict(s=memo[main['path']], v=main['v'], es=[e['c'] for e in main['edges']])
+            exp = dict(s=memo[main['path']], v=main['v'], es=[e['c'] for e in main['edges']], ws=[e['probe'][1] for e in main['edges'] if e['probe']])
             need = must_evaluate(pr)
             for o in obs:
                 if o['rc'] != 0 or o['art'] is None:
@@ -361,12 +412,18 @@ def run_all(name, bound, projects):
     R.ucg_binary()
     with concurrent.futures.ThreadPoolExecutor(max_workers=WORKERS) as ex:
         res = list(ex.map(run_project, projects))
+    for i, r in enumerate(res):         # the pool is gone: builds that timed out are repeated one at a time
+        if r is not None and r.get('retry'):
+            res[i] = run_project(projects[i], timeout=TIMEOUT_ALONE, alone=True)
     n = 3 * len(projects)
     bound = '%s [%d projects x 3 working directories%s]' % (bound, len(projects), '; %d more skipped as KNOWN %s' % (total - len(projects), KNOWN) if total > len(projects) else '')
     for r in res:
-        if r is not None:
+        if r is not None and 'detail' in r:
             return dict(name=name, bound=bound, cases=n, status='violation', detail=r['detail'][:700],
                         input=dict(source=r['source'], decoys=r['decoys'], expected=r['expected'], observed=r['observed'], how=r['how']))
+    for r in res:
+        if r is not None:
+            return dict(name=name, bound=bound, cases=n, status='error', detail=r['error'][:700])
     return dict(name=name, bound=bound, cases=n, status='ok')
 
 
@@ -468,10 +525,44 @@ def hand_projects():
     return out
 
 
+def chain_projects(tier):
+    """Chains of 2..4 let-imports across nested directories; every level names the next file and a sibling defaults.ucg by a path relative
+    to ITS OWN directory; files of the same names sit at the other levels (project files with other values and no s_<path> binding) and,
+    as differently typed decoys, wherever one of the paths would land when resolved against another level's directory."""
+    out = []
+    vals = iter(range(11, 4000, 7))
+    for depth in (2, 3, 4):
+        for style in ('down', 'up', 'side'):
+            if tier != 'thorough' and (depth, style) not in ((2, 'down'), (3, 'up'), (4, 'down'), (3, 'side'), (4, 'up')):
+                continue
+            if style == 'down':
+                dirs = ['/'.join('l%d' % j for j in range(1, i + 1)) for i in range(depth + 1)]            # '', l1, l1/l2, ...
+                hops = ['l%d/x.ucg' % (i + 1) for i in range(depth)]
+            elif style == 'up':
+                dirs = ['/'.join('l%d' % j for j in range(1, i + 1)) for i in range(depth, -1, -1)]        # l1/l2/l3, l1/l2, l1, ''
+                hops = ['../x.ucg'] * depth
+            else:
+                dirs = ['app', 'services', 'services/conf', 'shared', 'shared/deep'][:depth + 1]
+                hops = ['../services/x.ucg', 'conf/x.ucg', '../../shared/x.ucg', 'deep/x.ucg'][:depth]
+            pos = {'down': ['top'] * 4, 'up': ['top', 'topsel', 'top', 'modlet'], 'side': ['top', 'top', 'func', 'top']}[style]
+            files = []
+            for i, d in enumerate(dirs):
+                edges = [('import', 'defaults.ucg', 'top', i % 2 == 0)]
+                if i < depth:
+                    edges.insert(i % 2, ('import', hops[i], pos[i], i % 2 == 1))
+                files.append(F(posixpath.join(d, 'main.ucg' if i == 0 else 'x.ucg'), next(vals), edges))
+            for d in dirs:
+                files.append(F(posixpath.join(d, 'defaults.ucg'), next(vals)))
+            out.append(project('chain of %d let-imports (%s), x.ucg and defaults.ucg at every level' % (depth, style), files, nested=dirs[depth // 2] or dirs[1],
+                               args=dict(decoy=(depth + len(style)) % 3, nested=['', 'abs'][depth % 2])))
+    return out
+
+
 def standin_positions(tier, seed):
     return run_all('positions', 'hand-designed project trees: import and include at each of the %d / %d positions in the main file and in an imported file, '
-                   'fail messages, a diamond, a chain of 8, one name in 4 directories, 14 imports of one file, constraint-only import'
-                   % (len(IMPORT_POS), len(INCLUDE_POS)), hand_projects())
+                   'fail messages, a diamond, a chain of 8, one name in 4 directories, 14 imports of one file, constraint-only import, '
+                   '%s chains of 2..4 let-imports (down / up / sideways through the directories) with same-named files at every level'
+                   % (len(IMPORT_POS), len(INCLUDE_POS), 9 if tier == 'thorough' else 5), hand_projects() + chain_projects(tier))
 
 
 # ----------------------------------------------------------------------------------------------- family 2: every spelling
@@ -547,13 +638,14 @@ def random_project(rnd, idx, cyclic=False, flat=False):
         if flat and posixpath.dirname(paths[i]) == posixpath.dirname(target):
             return spell(rnd.choice(['plain', 'plain', 'dot', 'dots']), dirs, paths[i], target)
         return spell(rnd.choice(STYLES), dirs, paths[i], target)
+    letimp = ['top'] * 5                        # a third of the imports are plain `let x = import "...";` (what the static resolver follows)
     for j in range(1, n):                       # every file is imported by an earlier file at an evaluated position
         i = rnd.randrange(0, j)
-        edges[i].append(('import', sp(i, paths[j]), rnd.choice(EAGER_IMPORT_POS)))
+        edges[i].append(('import', sp(i, paths[j]), rnd.choice(EAGER_IMPORT_POS + letimp)))
     for _ in range(rnd.randint(0, n)):          # more edges (also a second / third import of the same file, also let constraints)
         i = rnd.randrange(0, n - 1)
         j = rnd.randrange(i + 1, n)
-        edges[i].append(('import', sp(i, paths[j]), rnd.choice([p for p in IMPORT_POS if p != 'fail'])))
+        edges[i].append(('import', sp(i, paths[j]), rnd.choice([p for p in IMPORT_POS if p != 'fail'] + letimp)))
     if data:
         for _ in range(rnd.randint(0, 3)):
             i = rnd.randrange(0, n)
@@ -618,7 +710,7 @@ def standin_random_dags(tier, seed):
 def cycle_projects(tier, seed):
     out = []
     cpos = EAGER_IMPORT_POS + ['fail']
-    sel = cpos if tier == 'thorough' else ['top', 'topsel', 'func', 'modbody', 'modout']
+    sel = cpos if tier == 'thorough' else ['top', 'topsel', 'modbody']
     # (i) cycles among files of ONE directory, spelled without `..`  (quick: the two shapes alternate over the positions)
     quick = tier != 'thorough'
     for n, p in enumerate(cpos):
@@ -651,7 +743,7 @@ def cycle_projects(tier, seed):
             out.append(project('2-cycle a <-> b across directories below the main file at position %s' % p,
                                [F('main.ucg', 1, [('import', 'app/a.ucg', 'top')]), F('app/a.ucg', 2, [('import', 'sub/b.ucg', p)]),
                                 F('app/sub/b.ucg', 3, [('import', './../a.ucg', p)])], nested='app', cyclic=True))
-    for p in (sel if not quick else ['topsel', 'modout']):
+    for p in (sel if not quick else ['modout']):
         out.append(project('self import (../app/a.ucg) below the main file at position %s' % p,
                            [F('main.ucg', 1, [('import', 'app/a.ucg', 'topsel')]), F('app/a.ucg', 2, [('import', '../app/a.ucg', p)])], nested='app', cyclic=True))
     out.append(project('3-cycle a -> b -> c -> a across directories with mixed positions',
@@ -666,9 +758,9 @@ def cycle_projects(tier, seed):
                         F('lib/b.ucg', 3, [('import', '.././app/sub/./a.ucg', 'topsel')])], nested='app/sub', cyclic=True))
     # (iii) random
     rnd = random.Random(seed * 104729 + 5)
-    for i in range(60 if tier == 'thorough' else 4):
+    for i in range(60 if tier == 'thorough' else 3):
         out.append(random_project(rnd, i, cyclic=True, flat=True))
-    for i in range(40 if tier == 'thorough' else 3):
+    for i in range(40 if tier == 'thorough' else 2):
         out.append(random_project(rnd, i, cyclic=True))
     return out
 
@@ -678,7 +770,7 @@ def standin_cycles(tier, seed):
                    '(files in one directory spelled x, ./x, ./././x; files in two directories spelled with ..; %s), self imports at %s positions, 3-, 4-, 6-cycles, a respelled cycle, '
                    'random DAGs of 2..8 files + a ring of 1..4 files in one directory, random DAGs + 1..2 back edges to an ancestor'
                    % (seed, len(EAGER_IMPORT_POS) + 1, 'both shapes at every position' if tier == 'thorough' else 'the shapes alternate over the positions, 6 positions across directories',
-                      'all' if tier == 'thorough' else '5', ), cycle_projects(tier, seed))
+                      'all' if tier == 'thorough' else '3..4', ), cycle_projects(tier, seed))
 
 
 STANDINS = [standin_positions, standin_spellings, standin_random_dags, standin_cycles]
